@@ -37,6 +37,25 @@ import (
 	"verifharness/h"
 )
 
+// wirGuard makes a run that dies before its end (a panic in the harness, a driver that stops
+// answering) visible: the check accepts any report that exists, so the report carries a failed floor
+// "run completed" until the returned function is called at the regular end of the test.
+func wirGuard(r *h.Report) (completed func()) {
+	const name = "run completed"
+	r.Floors[name] = "0 (the test did not reach its end)"
+	r.FloorFail = append(r.FloorFail, name)
+	return func() {
+		r.Floors[name] = "1"
+		var keep []string
+		for _, f := range r.FloorFail {
+			if f != name {
+				keep = append(keep, f)
+			}
+		}
+		r.FloorFail = keep
+	}
+}
+
 // ---------------------------------------------------------------- the registered functions
 
 // wirFeatureTypes: the feature type constants, as enumerated from the sources by the translator (G1,
@@ -896,6 +915,7 @@ func wirCmdOp(r *h.Report, fns map[string]*wirFn, op string) (impl string, kind 
 func TestWireCmd(t *testing.T) {
 	r := h.NewReport("wirecmd", "every function the factory registers for any feature type x 12 command shapes (the nine of the property, read+selector+elements, partial reply, delete+partial selectors), built with the real ReadCmdType/ReplyCmdType/NotifyOrWriteCmdType from reflectively generated data, selectors and elements, json.Marshal, json.Unmarshal, recognised with the real CmdType.Data/ExtractFilter/FilterType.Data; exhaustive over functions x shapes, several value seeds each; compared with the prediction of the Lean table model Spine.Cmd; non-trivial = distinct (function, shape, outcome)")
 	defer r.Write()
+	completed := wirGuard(r)
 	d := h.StartDriver("drv_cmd")
 	defer d.Close()
 	fns := wirFunctions(wirFeatureTypes(d))
@@ -961,6 +981,7 @@ func TestWireCmd(t *testing.T) {
 		for _, op := range ops {
 			run(op)
 		}
+		completed()
 		return
 	}
 	// the function list of the regenerated table (G1) must be the one the factory yields here
@@ -1009,6 +1030,7 @@ func TestWireCmd(t *testing.T) {
 	r.Info["functions with elements type"] = nel
 	r.Floor("functions found", len(fns), 100, 1.0)
 	r.Floor("applicable pairs", applicable, len(fns)*len(wirShapes), 0.6)
+	completed()
 }
 
 // ---------------------------------------------------------------- TestWireJson
@@ -1084,6 +1106,7 @@ func wirJsonOp(r *h.Report, d *h.Driver, types map[string]reflect.Type, op strin
 func TestWireJson(t *testing.T) {
 	r := h.NewReport("wirejson", "reflectively generated random values (pointer/slice fields nil, empty or filled; strings with quotes, backslashes, HTML and non-ASCII characters; numbers at the bounds of their Go type) of the payload, selectors and elements type of every registered function and of Datagram/HeaderType/CmdType/FilterType: encoded by encoding/json and by Spine.Json.encode over the regenerated schema (compared as JSON trees), decoded by both (compared as values); SPEC: decode(encode v) equals v up to absent/empty lists and TimePeriodType's re-expressed end time; non-trivial = distinct JSON text")
 	defer r.Write()
+	completed := wirGuard(r)
 	d := h.StartDriver("drv_json")
 	defer d.Close()
 	types := map[string]reflect.Type{}
@@ -1119,6 +1142,7 @@ func TestWireJson(t *testing.T) {
 		for _, op := range ops {
 			run(op)
 		}
+		completed()
 		return
 	}
 	// every type must be known to the regenerated schema and well-formed there
@@ -1154,4 +1178,5 @@ func TestWireJson(t *testing.T) {
 	r.Floor("values with a null", r.Dist["with-null"], tot, 0.001)
 	r.Floor("values on TimePeriodType's custom path", r.Dist["custom-json"], tot, 0.002)
 	r.Floor("types", len(names), 300, 1.0)
+	completed()
 }
